@@ -14,11 +14,15 @@ let parse_cfg (s : string) =
   let reps = List.init 3 (fun i ->
       fresh_rep (lv (g "lv").[i]) ((g "sl").[i] = '1') (lb <> "-" && int_of_string lb = i) (b "lr" && i = 2)) in
   let bo k = (try List.assoc k kv = "1" with Not_found -> false) in
+  let ga k d = (try List.assoc k kv with Not_found -> d) in
+  let trig t = if t = "P" then TPre else if String.length t >= 2 && t.[0] = 'A' then TAtt (nat_of_int (int_of_string (String.sub t 1 (String.length t - 1))))
+               else if String.length t >= 2 && t.[0] = 'B' then TBo (nat_of_int (int_of_string (String.sub t 1 (String.length t - 1)))) else TNever in
   let tp = (try List.assoc "tp" kv with Not_found -> "K") in
   let stp = match tp with "F" -> TpTiFlash | "D" -> TpTiDB | _ -> TpTiKV in
   (* for StoreTp <> TiKV only the validation gate is modelled: compare only the runs it refuses *)
   (bo "inv" || (tp <> "K" && not (tp = "F" && not (b "val"))), { c_rt = rt; c_stale = b "st"; c_read = b "rd"; c_has_labels = (lb <> "-"); c_leader_only = b "lo"; c_thr = b "thr";
-            c_short_to = b "to"; c_max_sleep = n_of_int (int_of_string (g "ms")); c_val = b "val"; c_reps = reps; c_fw = b "fw"; c_store_tp = stp })
+            c_short_to = b "to"; c_max_sleep = n_of_int (int_of_string (g "ms")); c_val = b "val"; c_reps = reps; c_fw = b "fw"; c_store_tp = stp;
+            c_cancel = trig (ga "cx" "-"); c_kill = trig (ga "kl" "-"); c_interruptible = (ga "ir" "1" = "1"); c_async = (ga "as" "0" = "1") })
 
 let parse_sym (s : string) : outcome =
   let lv c = match c with 'u' -> Unreachable | 'k' -> Unknown | _ -> Reachable in
